@@ -473,7 +473,7 @@ func c18Cases(r *vx.Run, n int) []c18Case {
 // c18HashFamily: every label set with <= 3 labels over names a,b,c whose values have lengths on
 // both sides of the 1KB switch.
 func c18HashFamily(r *vx.Run) [][]string {
-	lens := vx.Pick(r, []int{1, 500, 1009, 1010, 1011, 1022, 1023, 1024}, []int{0, 1, 2, 300, 500, 509, 510, 1008, 1009, 1010, 1011, 1019, 1020, 1021, 1022, 1023, 1024, 1025, 2048})
+	lens := vx.Pick(r, []int{1, 500, 1009, 1010, 1011, 1022, 1023, 1024}, []int{1, 2, 3, 300, 500, 509, 510, 1008, 1009, 1010, 1011, 1019, 1020, 1021, 1022, 1023, 1024, 1025, 2048})
 	names := []string{"a", "b", "c"}
 	var out [][]string
 	out = append(out, []string{})
